@@ -100,7 +100,10 @@ PROPS = {
     },
     "C05": {
         "runs": [{"profile": "c05", "n_quick": 12000, "n_thorough": 250000, "nontrivial": "fmt"},
-                 {"profile": "cliupd", "kind": "cli", "n_quick": 15, "n_thorough": 300, "nontrivial": "update"}],
+                 {"profile": "cliupd", "kind": "cli", "n_quick": 15, "n_thorough": 300, "nontrivial": "update"},
+                 # what --override writes (expectations built from actual answers) must be written the way
+                 # the model writes it: bytes after Runner::update_test_file
+                 {"profile": "update", "n_quick": 1000, "n_thorough": 20000, "nontrivial": "update"}],
         "observable": "bytes written by Display for the parsed records (+ tail normalisation) and the records obtained by re-parsing them; metamorphic oracle on the implementation alone: parse(fmt s) ~ parse s, fmt(fmt s) = fmt s",
         "explanation": "all 18 repository fixtures; sweep of 300 duration tokens around every radix boundary of humantime's format (in sleep and in retry clauses of statement/system); random well-formed scripts under random layouts (C03 generator); line/token/byte mutations of them (parseable ones are formatted, the others counted as parse errors)",
         "assumptions": ["library level: Display + `writeln!` + tail normalisation; CLI level: `sqllogictest --format` on real file trees (bytes compared with the model's fmtFile per file, second run must change nothing)"],
@@ -125,7 +128,8 @@ PROPS = {
     },
     "C02": {
         "runs": [{"profile": "c02", "n_quick": 6000, "n_thorough": 120000},
-                 {"profile": "climulti", "kind": "cli", "n_quick": 25, "n_thorough": 400, "nontrivial": "any"}],
+                 {"profile": "climulti", "kind": "cli", "n_quick": 25, "n_thorough": 400, "nontrivial": "any"},
+                 {"profile": "c14", "n_quick": 600, "n_thorough": 10000, "nontrivial": "include"}],
         "observable": "ordered trace of (session, sql) / command / sleep events, result, failing line, kind and payload",
         "explanation": "random scripts of 1..12 records of all kinds, mostly passing, first failing record and halt at random positions, failing connections, local variables set while substitution is off",
     },
